@@ -121,6 +121,8 @@ func (s step) String() string {
 		return fmt.Sprintf("Seek(%d,%d)", s.Off, s.Whence)
 	case "read":
 		return fmt.Sprintf("Read(%d)", s.N)
+	case "read1":
+		return fmt.Sprintf("Read-once(%d)", s.N)
 	case "evict":
 		return fmt.Sprintf("evict(to %d)", s.Target)
 	case "sleep":
@@ -216,7 +218,11 @@ func genCase(rt *rapid.T) caseSpec {
 	for i := 0; i < ns; i++ {
 		switch k := rapid.IntRange(0, 9).Draw(rt, "step"); {
 		case k < 5:
-			c.steps = append(c.steps, step{Kind: "read", N: rapid.SampledFrom([]int{0, 1, 100, 16383, 16384, 16385, int(ps), 1 << 20}).Draw(rt, "n")})
+			kind := "read"
+			if rapid.IntRange(0, 4).Draw(rt, "once") == 0 {
+				kind = "read1"
+			}
+			c.steps = append(c.steps, step{Kind: kind, N: rapid.SampledFrom([]int{0, 1, 100, 16383, 16384, 16385, int(ps), 1 << 20}).Draw(rt, "n")})
 		case k < 8:
 			s := step{Kind: "seek", Whence: rapid.IntRange(0, 2).Draw(rt, "whence")}
 			switch rapid.IntRange(0, 4).Draw(rt, "seekclass") {
@@ -246,6 +252,10 @@ func genCase(rt *rapid.T) caseSpec {
 // readLoop calls Read until it returns data or an error, backing off in
 // virtual time after empty successes.  A Read that is still blocked when the
 // budget (virtual time) is spent is reported as stuck.
+// singleRead: readLoop makes one Read call only (a consumer that looks at an
+// empty read and then does something else: closes, seeks, gives up).
+var singleRead bool
+
 func readLoop(rd *tor.Reader, buf []byte, budget time.Duration) (n int, err error, empties int, took time.Duration, stuck bool) {
 	start := time.Now()
 	wait := 10 * time.Millisecond
@@ -265,7 +275,7 @@ func readLoop(rd *tor.Reader, buf []byte, budget time.Duration) (n int, err erro
 		case <-time.After(budget):
 			return 0, nil, empties, time.Since(start), true
 		}
-		if n > 0 || err != nil || len(buf) == 0 {
+		if n > 0 || err != nil || len(buf) == 0 || singleRead {
 			return n, err, empties, time.Since(start), false
 		}
 		empties++
@@ -388,7 +398,8 @@ func runCase(c caseSpec) (fail string, labels map[string]bool) {
 			time.Sleep(time.Duration(s.N) * time.Second)
 			sim.Settle()
 			quiet = s.N >= 3
-		case "read":
+		case "read", "read1":
+			singleRead = s.Kind == "read1"
 			buf := make([]byte, s.N)
 			for i := range buf {
 				buf[i] = 0xA5
@@ -418,6 +429,11 @@ func runCase(c caseSpec) (fail string, labels map[string]bool) {
 			}
 			if err != nil && err != io.EOF {
 				return fmt.Sprintf("%s at position %d returned error %v while the context is live, the torrent alive and an honest seed connected\n%s", s, pos, err, describe()), labels
+			}
+			if n == 0 && err == nil && s.Kind == "read1" {
+				// the piece was evicted; this consumer does not insist
+				labels["single-read-saw-eviction"] = true
+				continue
 			}
 			if n == 0 && err == nil {
 				return fmt.Sprintf("%s at position %d: no data within 10 virtual minutes (%d empty reads) although an honest unchoking seed is connected (it served %d blocks)\n%s", s, pos, empties, served, describe()), labels
@@ -629,6 +645,25 @@ func TestReg_c02_reader_in_piece_0_leaks_priorities(t *testing.T) {
 // piece is evicted; everything else is complete and the idle prefetcher is off,
 // so nothing but the reader's own re-request can get the scheduler going again.
 func TestC02EvictedWhileHeld(t *testing.T) {
+	// a consumer that sees the eviction (an empty read) and leaves at once
+	for _, end := range []string{"close", "cancel-blocked"} {
+		c := caseSpec{g: sim.Geometry{PieceSize: 16384, Length: 16384 * 4, Seed: 8}, off: 16384, len: 16384 * 3,
+			prefill: []int{0, 3}, idleRate: 0, end: end,
+			steps: []step{{Kind: "read", N: 100}, {Kind: "sleep", N: 3}, {Kind: "evict", Target: 0}, {Kind: "read1", N: 100}}}
+		var fail string
+		var labels map[string]bool
+		leak := sim.Bubble(t, func() { fail, labels = runCase(c) })
+		if fail != "" {
+			t.Fatalf("%s", fail)
+		}
+		if leak != "" {
+			t.Fatalf("leak: %s", leak)
+		}
+		if !labels["single-read-saw-eviction"] {
+			t.Fatalf("harness: the single read did not see the eviction")
+		}
+		stats.Case("held/once/"+end, true, "single-read-saw-eviction", "evicted-while-held")
+	}
 	for _, prefill := range [][]int{{1, 2, 3}, {0, 2, 3}, {}} {
 		c := caseSpec{g: sim.Geometry{PieceSize: 16384, Length: 16384 * 4, Seed: 7}, off: 0, len: 16384 * 4,
 			prefill: prefill, idleRate: 0, end: "close",
